@@ -133,6 +133,10 @@ def main(argv=None):
             continue
         if r['status'] == 'out_of_reach':
             out_of_reach.append({'function': r['contract'], 'reason': r['reason']})
+            for o in r.get('obligations', []):
+                if o.get('verdict') == 'refuted':       # met on a feasible path prefix before the code left the subset
+                    obligations += 1
+                    refuted.append(o)
             continue
         functions.append({'function': r['contract'], 'file': r['file'], 'line': r['line'], 'sha256': r['sha256'],
                           'obligations': len(r['obligations']), 'paths': r['paths'], 'wall_s': round(r['wall'], 2)})
